@@ -15,6 +15,7 @@ import Nsq.Model.ViewOrder
   view …                      → C18: see `Nsq.Model.AggregateWire`
   fan kind=k topic=h channel=h node=sym lk=… na=… nd=…  → C17: `AdminProg.runAction`: result, number of errors in the ErrList, requests phase by phase
   getv1 https=b mode=n        → C18: `Fetch.getV1` against a stub behaviour: outcome, requests seen on the plain / TLS port
+  add topic|channel …         → C18: `TopicAgg.addAll` / `ChanAgg.add` on reports given directly (`AggregateWire.addLine`)
 -/
 open Nsq Nsq.Line Nsq.Model.AdminGate
 
@@ -225,6 +226,7 @@ def stepLine (line : String) : String :=
   | "getv1" :: toks => E7.getv1 toks
   | "lat" :: toks => E7.lat toks
   | "less" :: toks => E7.less toks
+  | "add" :: toks => Nsq.Model.AggregateWire.addLine toks
   | "latval" :: _ => "marshal-ok"   -- no model of the float values: the line states what the property demands
   | _ => "bad-op"
 
